@@ -223,7 +223,9 @@ class HamiltonianChain(MarkovChain):
         # floating-point numbers around t
         inv_mass = self.mass.inv_mass
         inv_mass = diagonal(inv_mass) if ndim(inv_mass) == 2 else inv_mass
-        dt = 1e-5 * maximum(1e-3 * abs(t), self.ES.epsilon * sqrt(inv_mass))
+        # (a floor of 1e-12 |t|, some thousands of spacings: the difference below is divided
+        # by the step actually taken, so the floor only has to keep the two points apart)
+        dt = 1e-5 * maximum(1e-7 * abs(t), self.ES.epsilon * sqrt(inv_mass))
         if self.bounds is not None:
             # keep the step small compared with the bounds, and step towards the
             # inside of the bounds if a forward step would leave them
